@@ -863,6 +863,7 @@ func TestVerifC08(t *testing.T) {
 		var pairs []c08Pair
 		diffCanonEq := map[string]bool{}
 		var sameCanonNotEq, selfNotEq int64
+		var sameCanonNotEqList []string
 		c.Parallel(n, func(l *vk.Local, i int) {
 			a := pool[i]
 			var mine []c08Pair
@@ -913,6 +914,9 @@ func TestVerifC08(t *testing.T) {
 					if rel == "same-value" {
 						mu.Lock()
 						sameCanonNotEq++
+						if len(sameCanonNotEqList) < 12 {
+							sameCanonNotEqList = append(sameCanonNotEqList, a.name+"  /  "+b.name)
+						}
 						mu.Unlock()
 					}
 					if rel == "same-instance" {
@@ -958,6 +962,8 @@ func TestVerifC08(t *testing.T) {
 		c.Set("eq_pairs_of_differently_described_values", dce)
 		c.Set("not_judged_same_described_value_not_eq_ordered_pairs", sameCanonNotEq)
 		c.Set("values_not_eq_to_themselves", selfNotEq)
+		sort.Strings(sameCanonNotEqList)
+		c.Set("not_judged_same_described_value_not_eq_examples", sameCanonNotEqList)
 		nonIdent := 0
 		for _, p := range pairs {
 			if p.ia != p.ib {
@@ -996,17 +1002,21 @@ func TestVerifC08(t *testing.T) {
 				tagStr := strings.Join(tags, ",")
 				seq := make([]c08Entry, k+1)
 				for _, perm := range perms[k+1] {
-					m := vals.EmptyMap
 					posA := 0
 					for i, x := range perm {
 						seq[i] = items[x]
 						if x == 0 {
 							posA = i
 						}
-						m = m.Assoc(items[x].k, items[x].v)
 					}
 					var what, msg string
-					if pn := vk.Try(func() { what, msg = c08Probe(m, seq, a, b) }); pn != "" {
+					if pn := vk.Try(func() {
+						m := vals.EmptyMap
+						for _, e := range seq {
+							m = m.Assoc(e.k, e.v)
+						}
+						what, msg = c08Probe(m, seq, a, b)
+					}); pn != "" {
 						vc.add("panic:map:"+vk.PanicSite(pn), p.size*10+k, fmt.Sprintf("map %s probed with %s panicked: %s", c08MapDesc(seq), p.b.name, pn))
 					} else if what != "" {
 						vc.add(c08Key("map", what, p.blame), p.size*10+k, fmt.Sprintf("a=%s b=%s (eq; Hash %#x / %#x): %s", p.a.name, p.b.name, vals.Hash(a), vals.Hash(b), msg))
@@ -1118,20 +1128,24 @@ func TestVerifC08(t *testing.T) {
 				l.Case(fmt.Sprintf("bulk/%s/%s/%s/%s/log2size=%d", p.a.kind, p.blame, famName, phase, c08Log2(size)))
 			}
 			// a first, then grow
-			m := vals.EmptyMap.Assoc(a, "va")
-			grown := vals.EmptyMap
-			for i := 0; i <= bulkN; i++ {
-				probe(m, i, keys[:i], "a-inserted-first")
-				probe(grown.Assoc(a, "va"), i, keys[:i], "a-inserted-last")
-				if i < bulkN {
-					m = m.Assoc(keys[i], "o")
-					grown = grown.Assoc(keys[i], "o")
+			if pn := vk.Try(func() {
+				m := vals.EmptyMap.Assoc(a, "va")
+				grown := vals.EmptyMap
+				for i := 0; i <= bulkN; i++ {
+					probe(m, i, keys[:i], "a-inserted-first")
+					probe(grown.Assoc(a, "va"), i, keys[:i], "a-inserted-last")
+					if i < bulkN {
+						m = m.Assoc(keys[i], "o")
+						grown = grown.Assoc(keys[i], "o")
+					}
 				}
-			}
-			// shrink again, oldest key first
-			for i := 0; i < bulkN; i++ {
-				m = m.Dissoc(keys[i])
-				probe(m, bulkN-i-1, keys[i+1:], "shrinking")
+				// shrink again, oldest key first
+				for i := 0; i < bulkN; i++ {
+					m = m.Dissoc(keys[i])
+					probe(m, bulkN-i-1, keys[i+1:], "shrinking")
+				}
+			}); pn != "" {
+				vc.add("panic:map:"+vk.PanicSite(pn), 1000000+p.size*10000, fmt.Sprintf("a=%s b=%s, growing/shrinking a map with keys of family %s panicked: %s", p.a.name, p.b.name, famName, pn))
 			}
 			mu.Lock()
 			bulkCases += cnt
@@ -1184,8 +1198,13 @@ func TestVerifC08(t *testing.T) {
 					} else {
 						seq = []c08Entry{{p.a.v, "va"}}
 					}
-					for _, e := range seq {
-						m = m.Assoc(e.k, e.v)
+					if pn := vk.Try(func() {
+						for _, e := range seq {
+							m = m.Assoc(e.k, e.v)
+						}
+					}); pn != "" {
+						vc.add("panic:map:"+vk.PanicSite(pn), p.size*10+len(seq), fmt.Sprintf("building map %s panicked: %s", c08MapDesc(seq), pn))
+						continue
 					}
 					w.a, w.b, w.m, w.n = p.a.v, p.b.v, m, nmap
 					out, err := w.eval(code)
